@@ -295,7 +295,9 @@ func ringWindows(n int, xs []int) [][]int {
 			cnt++
 		}
 		if cnt == n {
-			out = append(out, append([]int(nil), buf...))
+			// list order: the oldest item is at pos
+			w := append([]int(nil), buf[pos:]...)
+			out = append(out, append(w, buf[:pos]...))
 		}
 	}
 	return out
